@@ -174,6 +174,9 @@ func (fr *Frame) siteCall(c *ssa.CallCommon, pos token.Pos, args []Val, before b
 		for j, a := range args {
 			env.vars[fmt.Sprintf("arg%d", j)] = a
 		}
+		if c.IsInvoke() {
+			env.vars["recv"] = fr.get(c.Value)
+		}
 		if res != nil {
 			bindResults(fr.vc, env, c.Signature(), nil, padResult(fr.vc, *res, c.Signature()))
 		}
